@@ -205,7 +205,7 @@ def replay_record(rp: dict, level=1):
         pk.Tracer.active = None
     rec = {'tid': 1, 'spec': spec, 'deck0': pk.Shuffles.last_deck, 'steps': []}
     rec['cfg'] = pk.project_cfg(st, werr=werr, rake=spec.get('rake'),
-                                extra={'deckcards': sorted(pk.card_int(c) for c in st.deck), 'variant': spec['variant'], 'sb': spec.get('sb', 0), 'bb': spec.get('bb', 0), 'deck': games.deck_name(st.deck)})
+                                extra={'deckcards': sorted(pk.card_int(c) for c in st.deck), 'variant': spec['variant'], 'sb': pk.chip(spec.get('sb', 0)), 'bb': pk.chip(spec.get('bb', 0)), 'deck': games.deck_name(st.deck)})
     rec['create'] = {'out': 'ok', 'post': play.observe(st, 0), 'micro': mic}
     for call in rp['calls']:
         probes, psame = play.probes(st, walk.probe_universe(st, rng, level), werr)
